@@ -170,8 +170,64 @@ def c15(ctx):
                            'via theorem C15_outermost)' % (iv[1], mi[1])) if clean else
                           'find_top_level_manifest differs between model and implementation',
                           {'where': 'find_top_level', 'case': c, 'impl': iv, 'model': mi, 'devs': res['devs']})
+    cli_discovery_per_path(ctx)
     ctx.count('top:chains', len(cases), len({json.dumps(c, sort_keys=True) for c in cases}),
               samples=[{'case': cases[0], 'result': out['results'][0]['res']}],
               dist=dict(kinds, realisation=out['realisation'], depth=DEPTH,
                         with_boundary=sum(1 for c in cases if c['boundary']),
                         outermost_level_is_the_root_directory=sum(1 for x in out['results'] if x.get('chrooted'))))
+
+
+def cli_discovery_per_path(ctx):
+    """`gemato verify p1 p2 ...`: the top-level Manifest is discovered for each path on its own (an overlay inside an IGNOREd directory has
+    its own top-level Manifest): the command fails iff one of the single-path commands fails, whatever the order"""
+    import hashlib
+    import tempfile
+    import shutil
+    import p_tree as PT
+    r = ctx.rng('c15cli')
+    n = same = 0
+    td = tempfile.mkdtemp(prefix='gv-c15-', dir=os.environ.get('GV_SCRATCH'))
+    try:
+        for i in range(40 if ctx.tier == 'quick' else 400):
+            repo = os.path.join(td, 'r%d' % i)
+            os.makedirs(os.path.join(repo, 'pkg'))
+            os.makedirs(os.path.join(repo, 'local', 'inner'))
+            def line(tag, rel, data):
+                return '%s %s %d SHA1 %s' % (tag, rel, len(data), hashlib.sha1(data).hexdigest())
+            files = {'pkg/file': b'pkg\n', 'local/own': b'own\n', 'local/inner/deep': b'deep\n'}
+            for pth, data in files.items():
+                with open(os.path.join(repo, pth), 'wb') as f:
+                    f.write(data)
+            overlay_ok = r.random() < 0.7          # the overlay's own Manifest matches / does not match its files
+            ignore = r.choice(['local', 'local', 'local/inner', None])
+            top = [line('DATA', 'pkg/file', files['pkg/file'] if r.random() < 0.8 else b'x')]
+            if ignore:
+                top.append('IGNORE ' + ignore)
+            if ignore != 'local':
+                top.append(line('DATA', 'local/own', files['local/own']))
+            if ignore is None:
+                top.append(line('DATA', 'local/inner/deep', files['local/inner/deep']))
+            lm_dir = 'local' if ignore == 'local' else ('local/inner' if ignore == 'local/inner' else None)
+            if lm_dir:
+                ents = [line('DATA', os.path.relpath(pth, lm_dir), data if overlay_ok else b'??') for pth, data in files.items() if pth.startswith(lm_dir + '/')]
+                with open(os.path.join(repo, lm_dir, 'Manifest'), 'w') as f:
+                    f.write('\n'.join(ents) + '\n')
+            with open(os.path.join(repo, 'Manifest'), 'w') as f:
+                f.write('\n'.join(top) + '\n')
+            cand = ['pkg', 'local', 'local/inner', '']
+            paths = r.sample(cand, r.choice([2, 2, 3]))
+            flags = r.choice([[], ['--keep-going']])
+            single = {pp: PT.run_cli_collect(['gemato', 'verify', '--no-openpgp-verify'] + flags + [os.path.join(repo, pp) if pp else repo])[0] for pp in paths}
+            multi, items = PT.run_cli_collect(['gemato', 'verify', '--no-openpgp-verify'] + flags + [os.path.join(repo, pp) if pp else repo for pp in paths])
+            n += 1
+            if (multi != 0) != any(v != 0 for v in single.values()):
+                ctx.violation('spec', f'gemato verify {" ".join(flags)} {" ".join(pp or "<top>" for pp in paths)} exits {multi}, the single-path commands exit {single}: '
+                              'the top-level Manifest of a later path was not discovered from that path', {'paths': paths, 'flags': flags, 'ignore_in_top': ignore,
+                                                                                                            'overlay_consistent': overlay_ok, 'single': single, 'several': multi, 'log': items[:8]})
+            else:
+                same += 1
+            shutil.rmtree(repo, ignore_errors=True)
+    finally:
+        shutil.rmtree(td, ignore_errors=True)
+    ctx.count('cli:discovery-per-path', n, n, dist={'runs_agreeing': same})
